@@ -764,9 +764,8 @@ func (s *sess) history(kind string, val json.RawMessage, ops []HOp) {
 				}
 				ok = true
 			})
-			if !ok && pi == nil && !hang {
-				ev.Fatal("history: growth step %+v cannot be applied", o)
-			}
+			// a step the live structure does not admit (the element it names is missing - lost by an earlier adopt, say) is an
+			// observation (ok = false); the trace specification knows whether the abstract value admits the step
 			s.w.Emit(HistEv{Op: "HGrow", HKind: kind, Val: nullJSON, Level: o.Level, S: o.S, I: o.I, Item: o.Item, Ok: ok, Obs: obs(pi, hang)})
 			if !ok {
 				return
